@@ -11,7 +11,8 @@ from .. import tables
 TEXT = ("Thin claim: exactness of the Myers edit script for all pairs of arrays is arithmetic over runtime values and is "
         "NOT decided. Decided: E1 - in update_object the revision whose order is rebuilt as the diff base and the "
         "revision recorded as the new revision's parent are the same value (the winner of the same locked tree, no "
-        "insertion in between), and the chain walk follows the recorded parent links; E2 - writer/reader table agreement "
+        "insertion in between), the chain walk follows the recorded parent links and leaves its loop as soon as the "
+        "base order has been assigned (nearest stored full order); E2 - writer/reader table agreement "
         "for edit scripts: op-codes emitted = op-codes tested (anything else is an Err), per-op operand kinds agree "
         "position by position, and the applier's ranges are (start = op[2], end = op[2] + op[1]) for deletions and an "
         "empty range at op[1] for insertions; E3 - the reconstruction cache is transparent: the value stored under the "
@@ -79,6 +80,33 @@ def run(facts, res):
             res.instance("E1", "rebuild_array_order walks RevisionTree::get_parent (%s) and applies the collected patches oldest first (rev(): %s)" % (ok, rev_ok), rb.loc())
             if not (ok and rev_ok):
                 res.violation("E1", "array-rebuilder|chain", "rebuild_array_order no longer follows the recorded parent links / applies patches oldest first", rb.loc())
+
+        # E1c: the walk stops at the nearest stored full order: the base the patches are applied to is assigned at most
+        # once per reconstruction - inside the history loop an assignment of the base is followed by leaving the loop
+        if rb is not None:
+            rdu = du_of(rb)
+            rcfg = cfg_of(rb)
+            bases = set()
+            for bi, t in rb.calls():
+                if t.callee is not None and t.callee.target() == "utils::apply_diff_patch" and t.args:
+                    for x in walk(rdu.operand_term(t.args[0], 6)):
+                        if x[0] == "var":
+                            bases.add(x[1])
+            n_as = 0
+            for blk in rb.blocks:
+                if blk.cleanup:
+                    continue
+                for st in blk.stmts:
+                    if st.kind == "assign" and st.place is not None and st.place.local in bases and not st.place.proj:
+                        n_as += 1
+                        hdrs = [hb for hb, ht in rb.calls() if ht.callee is not None and ht.callee.name == "next" and
+                                rcfg.dominates(hb, blk.idx) and rcfg.reaches(blk.idx, hb)]
+                        res.instance("E1", "rebuild_array_order: base order assigned at line %s; the history walk continues afterwards: %s" % (st.line, bool(hdrs)), rb.loc(st.line))
+                        if hdrs:
+                            res.violation("E1", "array-rebuilder|walk-continues-past-full-order",
+                                          "rebuild_array_order keeps walking towards older versions after it found a stored full order: an older full order "
+                                          "overwrites the nearest one and the collected patches are applied to the wrong base", rb.loc(st.line))
+            res.floor("E1", "assignments of the patch base in the rebuilder", n_as, 1)
 
     # ------------------------------------------------------------------ E2
     w = facts.body("utils::make_diff_patch")
